@@ -231,6 +231,24 @@ def fam_azimuthal_stack_many(ctx, rng):
               "with several recordings an azimuth of the azimuthal result differs from the single-azimuth result",
               rows_azimuthal=[x.shape[0] for x in A], rows_single=[y.shape[0] for y in S], time_steps=dts, handling=policy,
               azimuths=cfg["azimuths"], op=cfg["op"], mechanism="several-recordings")
+    # RotDpp over the same azimuths, recording by recording: bounded by / equal to min and max over the azimuths
+    if ok and k >= 1:
+        ps = sorted([0.0, 100.0, float(rng.uniform(0, 100))])
+        try:
+            rot = [np.atleast_2d(np.asarray(go(dict(cfg, kind="rotdpp", method="rotdpp", percentile=p)).amplitude)) for p in ps]
+        except ValueError:
+            ctx.count("process_refused")
+            rot = None
+        if rot is not None:
+            stack = np.stack(A)                       # azimuth x recording x frequency
+            lo, hi = stack.min(axis=0), stack.max(axis=0)
+            tol = 1e-9 * np.maximum(hi, 1e-300)
+            good = all(r.shape == lo.shape for r in rot)
+            good = good and close(rot[0], lo, rtol=1e-9) and close(rot[-1], hi, rtol=1e-9)
+            good = good and bool(np.all(rot[1] >= lo - tol) and np.all(rot[1] <= hi + tol))
+            ctx.check(good, "rotdpp-monotone-and-bounded", "with several recordings RotDpp leaves [min,max] over the azimuths of "
+                      "its own recording (or RotD0 / RotD100 are not the minimum / maximum)", percentiles=ps, time_steps=dts,
+                      handling=policy, azimuths=cfg["azimuths"], op=cfg["op"], mechanism="several-recordings")
     if len(set(dts)) > 1:
         ctx.nontrivial(["stack-many", tuple(dts), policy, k, cfg["op"]])
     ctx.state([len(set(dts)), policy])
